@@ -42,15 +42,18 @@ func (l LengthFilter) ShouldCompress(w http.ResponseWriter) bool {
 // SkipCompressedFilter is ResponseFilter that will discard already compressed responses
 type SkipCompressedFilter struct{}
 
-// ShouldCompress returns true if served file is not already compressed
-// encodings via https://developer.mozilla.org/en-US/docs/Web/HTTP/Headers/Content-Encoding
+// ShouldCompress returns true if served file is not already compressed.
+// Any Content-Encoding other than identity, whatever its spelling (x-gzip,
+// GZIP, "br, gzip", codings yet to come), says that the body is encoded;
+// gzipping it again would overwrite that header and leave the client
+// unable to decode the response.
 func (n SkipCompressedFilter) ShouldCompress(w http.ResponseWriter) bool {
-	switch w.Header().Get("Content-Encoding") {
-	case "gzip", "compress", "deflate", "br", "zstd":
-		return false
-	default:
-		return true
+	for _, encoding := range w.Header()["Content-Encoding"] {
+		if encoding != "" && encoding != "identity" {
+			return false
+		}
 	}
+	return true
 }
 
 // ResponseFilterWriter validates ResponseFilters. It writes
